@@ -5,18 +5,18 @@ func init() {
 		Explanation: "Decides: (R1) CmdAdd persists the network list before the first ADD, aborts on a failed save, rolls a failed ADD back through CmdDel starting at the failing index and returns a non-nil error, chains prevResult from the previous delegate; (R2) CmdDel consumes the state before any DEL, a missing state file succeeds without invoking anything, the loop index decreases, failed DELs are appended, reversed back into ADD order, re-saved and the DEL fails; (R3) in the request handler port mappings are set up only after a successful ADD, cleaned up when their setup fails, and removed only after a successful DEL; (R4) isolation: alias taint from the elements of Galaxy.netConf / NetworkConf reaches no map write, configuration is handed out as copies, and the table itself is written only on the way from Init; (R5) network selection (annotation / ENI network / defaults) and interface naming follow the documented order, and every common.* argument is copied to every network. (R6) the saved network list is removed only by consumeNetworkInfo (who-may-remove), CmdAdd touches it only through saveNetworkInfo and the rollback CmdDel, and the JSON form of the networks annotation is used as decoded (no field of a decoded entry is rewritten). Does not decide behaviour for every failure pattern or request sequence, nor what the plugin binary receives byte for byte.",
 		Assumptions: []string{"alias taint is field-based and flow-insensitive (may over-approximate aliasing, never under-approximates within the module)", "nested maps inside a configuration are not tracked (only CmdAdd's top-level write exists today)"},
 		Run: func(c *Ctx) {
-			c.Rule("C12.R1", "CmdAdd / CmdDel ordering, pairing, rollback", 12)
+			c.Rule("C12.R1", "CmdAdd / CmdDel ordering, pairing, rollback", 6)
 			ruleCniAddDel(c, "C12.R1")
-			c.Rule("C12.R2", "delegates receive Conf and IfName of the same entry", 2)
+			c.Rule("C12.R2", "delegates receive Conf and IfName of the same entry", 1)
 			ruleDelegateArgs(c, "C12.R2")
-			c.Rule("C12.R6", "state file removed only by consuming it; JSON annotation entries used as decoded", 3)
+			c.Rule("C12.R6", "state file removed only by consuming it; JSON annotation entries used as decoded", 1)
 			ruleStateFileOwnership(c, "C12.R6")
 			ruleAnnotationJSONUntouched(c, "C12.R6")
-			c.Rule("C12.R3", "port mapping pairing in the request handler", 3)
+			c.Rule("C12.R3", "port mapping pairing in the request handler", 1)
 			ruleRequestPortMapping(c, "C12.R3")
-			c.Rule("C12.R4", "static configuration never written after Init", 3)
+			c.Rule("C12.R4", "static configuration never written after Init", 1)
 			ruleSharedConfImmutable(c, "C12.R4")
-			c.Rule("C12.R5", "network selection and interface naming", 6)
+			c.Rule("C12.R5", "network selection and interface naming", 3)
 			ruleNetworkSelection(c, "C12.R5")
 		}})
 }
